@@ -973,7 +973,8 @@ class C04(core.Check):
                   "(redraw_same_canvas_writes_nothing); (draw_paints_partial, draws_paint_partial, "
                   "partial_clear_keeps_sync) partial display mode with the display origin on terminal row 0: rows "
                   "0.._rows_used shown (a blank canvas row left off the display is demanded as blank text only), rows below "
-                  "blank, cursor, no scrolling, for every history of draws and clear(); (html_exact) the HTML back-end's "
+                  "blank, cursor, no scrolling, for every history of draws, clear() and frames abandoned by a mid-draw SIGWINCH "
+                  "(partial_history_paints, partial_history_keeps_sync); (html_exact) the HTML back-end's "
                   "spans carry exactly the canvas text row by row with at most one one-character span swapped, for every "
                   "canvas and cursor.  NOT proved, statement kept (draw_paints_any_text_full): zero-width and C0 control "
                   "characters.  Correspondence/oracle only: everything above on the real code (exact token streams, all "
@@ -1579,18 +1580,18 @@ class C04(core.Check):
             elif r < 0.75:
                 frames.append({"op": "clear", "scramble": rng.choice([None, 0, 1, 2])} if not partial else {"op": "clear"})
                 draw()
-            elif r < 0.80 and not partial:
+            elif r < 0.80 and (not partial or rng.random() < 0.5):
                 # SIGWINCH while a frame is being produced: the frame is abandoned; the redraw after the
                 # acknowledgement often has exactly the rows of the abandoned canvas
                 draw({"intr": rng.randrange(rows)})
                 abandoned = frames[-1]
-                if rng.random() < 0.3:
+                if rng.random() < 0.3 and not partial:
                     draw()
                 frames.append({"op": "ack"})
                 if rng.random() < 0.7 and abandoned["canvas"][0] != "widget":
                     f = dict(abandoned)
                     f.pop("intr")
-                    f["cursor"] = self.gen_cursor(rng, cols, rows)
+                    f["cursor"] = self.gen_cursor(rng, cols, rows - origin, 1.0 if (partial and always_cursor) else 0.5)
                     frames.append(f)
                     rws = [[list(r) for r in row] for row in f["canvas"][1]]
                 else:
